@@ -87,6 +87,14 @@ func buildPool(t *rapid.T, next http.Handler, maxW int, opts ...roundrobin.LBOpt
 		return -1
 	}
 	poolScale = 1
+	// the package-level default weight (what a new server added with weight 0 gets)
+	defaultW := 1
+	if maxW > 64 && rapid.IntRange(0, 7).Draw(t, "defaultWeight") == 0 {
+		defaultW = rapid.SampledFrom([]int{2, 3, 7}).Draw(t, "dw")
+	}
+	if err := roundrobin.SetDefaultWeight(defaultW); err != nil {
+		t.Fatalf("SetDefaultWeight(%d): %v", defaultW, err)
+	}
 	if maxW > 64 && rapid.IntRange(0, 5).Draw(t, "scaled") == 0 { // (the concurrent test runs whole rotations: no huge ones there)
 		// 14 servers x 12 x 5 x 2^52 stays below 2^62
 		odd := rapid.SampledFrom([]int{1, 3, 5, 1000003}).Draw(t, "scaleOdd")
@@ -125,7 +133,7 @@ func buildPool(t *rapid.T, next http.Handler, maxW int, opts ...roundrobin.LBOpt
 		}
 		mw := w
 		if mw == 0 {
-			mw = 1 // a new server with Weight(0) gets the default weight
+			mw = defaultW // a new server with Weight(0) gets the default weight
 		}
 		model = append(model, srv{name, mw})
 		log = append(log, fmt.Sprintf("add(s%d,%d)", i, w))
@@ -167,7 +175,7 @@ func buildPool(t *rapid.T, next http.Handler, maxW int, opts ...roundrobin.LBOpt
 				interesting = true
 			} else {
 				if w == 0 {
-					w = 1
+					w = defaultW
 				}
 				model = append(model, srv{name, w})
 			}
